@@ -1,4 +1,4 @@
-import AioslskVerif.Model.Dist
+import AioslskVerif.Spec.DistTree
 /-! Helper lemmas for C13: the inductive invariant of the distributed-tree model. -/
 namespace AioslskVerif.Dist
 
@@ -646,5 +646,21 @@ theorem step_children (s : DState) (op : Op) (d : ConnId) (hi : Inv s)
     exact absurd (this ▸ h) hn
   | sessionDestroyed => exact absurd h hn
   | serverStateChange => exact absurd h hn
+
+/-! ### the code's advertised values are the derived position -/
+
+theorem adv_derived (s : DState) (me : Name) (h : Inv s) (hd : ¬ Degenerate s me) :
+    Derived s me (s.adv me) s.parent.isNone := by
+  unfold Derived DState.adv
+  cases hp : s.parent with
+  | none => exact ⟨rfl, rfl⟩
+  | some c =>
+    have hc := h.str.parentComplete c hp
+    obtain ⟨l, hl⟩ := Option.isSome_iff_exists.1 hc.1
+    obtain ⟨r, hr⟩ := Option.isSome_iff_exists.1 hc.2
+    have hne : ¬ (s.root c = some me) := fun e => hd ⟨c, hp, e⟩
+    refine ⟨l, r, hl, hr, ?_, rfl⟩
+    rw [hr] at hne
+    simp only [hl, hr, Option.getD_some, if_neg hne]
 
 end AioslskVerif.Dist
